@@ -16,4 +16,6 @@ NextR == \/ \E v \in AddIds : Add(v)
          \/ (WithNextId /\ NextId)
          \/ Clone \/ Reload
 SpecR == Init /\ [][NextR]_vars
+\* the same with slices (observer transitions, self-loops)
+NextR2 == NextR \/ \E v \in Ids, p \in Preds : Slice(v, p)
 =============================================================================
